@@ -240,7 +240,7 @@ func frameFuncs(stack string) []string {
 			continue
 		}
 
-		if !strings.Contains(ln, "(") {
+		if !strings.Contains(ln, "(") && !strings.HasPrefix(ln, "created by ") {
 			continue
 		}
 
